@@ -234,9 +234,19 @@ func Go(fn func()) {
 		go fn()
 		return
 	}
-	nt := &Thread{body: fn, pending: Op{Kind: OpStart}}
+	nt := newThread(fn)
 	park(t, Op{Kind: OpSpawn, nt: nt})
 	go threadMain(nt)
+}
+
+// newThread allocates the descriptor of a thread spawned by a managed thread. The explorer reads it without any
+// happens-before edge from the spawner (by design: the scheduler adds none), so the initialising stores must not be
+// visible to the race detector as writes of the spawner.
+//
+//go:norace
+//go:noinline
+func newThread(fn func()) *Thread {
+	return &Thread{body: fn, pending: Op{Kind: OpStart}}
 }
 
 var doneCh = make(chan int, maxThreads)
